@@ -206,27 +206,8 @@ EXPLANATION = 'DeferQueue verified against an abstract multiset view for all del
 
 
 def bounded_checks(tier, seed):
-    """B3: exhaustive histories over a small object against the real DeferQueue (bounded stand-in;
-    gives a replayable counterexample where the quantified obligations only time out)."""
-    import json, os, subprocess
-    from pyvc.repo import REPO_ROOT
-    V = os.path.dirname(os.path.dirname(os.path.abspath(__file__)))
+    """B3: exhaustive delivery histories over a small object against the real DeferQueue."""
+    from pyvc.bounded import run_tool
     n, k = (6, 3) if tier == 'quick' else (7, 4)
-    tool = os.path.join(V, 'tools', 'b3_deferqueue.py')
-    p = subprocess.run(['/venv/bin/python', tool, REPO_ROOT, str(n), str(k)], capture_output=True, text=True, timeout=3600)
-    try:
-        rep = json.loads(p.stdout.strip().splitlines()[-1])
-    except Exception:
-        return {'report': {'b3_deferqueue': {'error': (p.stdout + p.stderr)[-500:]}}}
-    out = {'report': {'b3_deferqueue': dict(rep, bound=f'object of {n} bytes, histories of <= {k} deliveries', label='bounded')}}
-    if rep.get('failing_history'):
-        d = os.path.join(V, 'replays', 'C16')
-        os.makedirs(d, exist_ok=True)
-        path = os.path.join(d, 'b3_failing_history.py')
-        open(path, 'w').write(
-            '"""Replay: a delivery history on which the real DeferQueue violates C16 (found by the bounded stand-in B3).\n'
-            f'history (offset, length): {rep["failing_history"]}\nwhy: {rep["why"]}"""\n'
-            'import subprocess, sys\n'
-            f'sys.exit(subprocess.run(["/venv/bin/python", {tool!r}, sys.argv[1] if len(sys.argv) > 1 else {REPO_ROOT!r}, "{n}", "{k}", "--replay", {json.dumps(json.dumps(rep["failing_history"]))}]).returncode)\n')
-        out['violations'] = [{'replay': path, 'what': f'history {rep["failing_history"]}: {rep["why"]}'}]
-    return out
+    return run_tool('C16', 'b3_deferqueue', 'b3_deferqueue.py', [n, k],
+                    f'object of {n} bytes, all histories of <= {k} deliveries (any offset/length)', 'failing_history')
